@@ -28,6 +28,93 @@ func checkC14(c *Check) {
 	c.Floor("renderer functions", 1, nr)
 	callbackPipeline(c)
 	deliveredEventUnmodified(c, t)
+	renderedEventEmittedAsRendered(c, t)
+	// the record group is complete: every line of the stream is pushed to
+	// the reassembler (rules of C15)
+	ng := importRules(c, "C15", checkC15, "record-group-complete: ", "parse-or-stop", "push-parse-result")
+	c.Floor("imported record-group-complete obligations", 3, ng)
+}
+
+// renderedEventEmittedAsRendered: what the renderer returns is what is
+// written: between the call of a renderer and the emit no function of the
+// correlator stores into the rendered event (its fields, the maps hanging
+// off it) or calls one of its mutating builders. Otherwise the same record
+// group renders differently depending on the path it took (held and flushed,
+// or emitted directly).
+func renderedEventEmittedAsRendered(c *Check, t *Tracker) {
+	p := c.P
+	n := 0
+	for _, fn := range p.AllRepoFuncs() {
+		if fn.Blocks == nil || !strings.HasPrefix(FuncPkgPath(fn), ModPath+"/processors/auditd") {
+			continue
+		}
+		for _, ci := range callsIn(fn) {
+			cl, ok := ci.(*ssa.Call)
+			if !ok {
+				continue
+			}
+			sc := staticCallee(cl.Common())
+			if sc == nil || !t.Renderer[sc] {
+				continue
+			}
+			n++
+			name := "result of " + sc.Name() + " in " + fn.Name()
+			bad := ""
+			seen := map[ssa.Value]bool{}
+			var walk func(v ssa.Value, depth int)
+			walk = func(v ssa.Value, depth int) {
+				if v == nil || seen[v] || depth > 8 || bad != "" {
+					return
+				}
+				seen[v] = true
+				rr := v.Referrers()
+				if rr == nil {
+					return
+				}
+				for _, u := range *rr {
+					switch x := u.(type) {
+					case *ssa.FieldAddr:
+						if x.X != v {
+							continue
+						}
+						if fr := x.Referrers(); fr != nil {
+							for _, fu := range *fr {
+								switch y := fu.(type) {
+								case *ssa.Store:
+									if y.Addr == ssa.Value(x) {
+										bad = "field " + fieldName(x.X.Type(), x.Field) + " is overwritten at " + p.InstrPos(y)
+									}
+								case *ssa.UnOp:
+									// a map or pointer loaded from the event
+									if _, isMap := y.Type().Underlying().(*types.Map); isMap {
+										if mr := y.Referrers(); mr != nil {
+											for _, mu := range *mr {
+												if up, ok := mu.(*ssa.MapUpdate); ok && up.Map == ssa.Value(y) {
+													bad = "map " + fieldName(x.X.Type(), x.Field) + " is updated at " + p.InstrPos(up)
+												}
+											}
+										}
+									}
+								case *ssa.FieldAddr:
+									walk(x, depth+1)
+								}
+							}
+						}
+					case *ssa.Phi, *ssa.ChangeType, *ssa.MakeInterface:
+						walk(u.(ssa.Value), depth+1)
+					case ssa.CallInstruction:
+						cc := x.Common()
+						if s2 := staticCallee(cc); s2 != nil && s2.Signature.Recv() != nil && len(cc.Args) > 0 && cc.Args[0] == v && strings.HasPrefix(s2.Name(), "With") {
+							bad = "builder " + s2.Name() + " is applied at " + p.InstrPos(x)
+						}
+					}
+				}
+			}
+			walk(cl, 0)
+			c.Cond(bad == "", "renderer-pure", name+": emitted as rendered", p.InstrPos(cl), "the rendered event is not modified after rendering", "the rendered event is altered after the renderer returned ("+bad+"): an event that took this path (e.g. held and flushed) differs from the same event emitted directly, and no longer carries what the kernel recorded")
+		}
+	}
+	c.Floor("call sites of the renderer", 2, n)
 }
 
 // deliveredEventUnmodified: the correlator renders (now, or later from the
